@@ -281,3 +281,64 @@ func TestC14Long(t *testing.T) {
 	defer st.Flush()
 	rapid.Check(t, c14LongProp(st))
 }
+
+// Very large vocabularies: pooled per-postings-list state beyond 2^16 / 2^19
+// lists. Two batches with more distinct (field, term) pairs than the
+// threshold, shaped differently (so that the same postings-list id belongs to
+// other documents), built alternately on one pooled builder.
+const c14VocabRule = "case = batch B (nB documents x tB terms unique to the document) built cold, then batch A (another shape, at least as many distinct terms) on the same pooled builder (one P), then B again; total distinct terms > 2^16 (quick and thorough) and > 2^19 (thorough only); " +
+	"oracle = identical bytes (and no panic); non-trivial = both batches exceed the threshold and the second build of B started from a recycled builder; distinct = threshold"
+
+func uniqueTermsBatch(nDocs, perDoc int, tag string) Batch {
+	b := make(Batch, nDocs)
+	for d := range b {
+		f := Field{Name: "body", Len: perDoc}
+		f.Terms = make([]Term, perDoc)
+		for k := range f.Terms {
+			f.Terms[k] = Term{T: fmt.Sprintf("%s%d-%d", tag, d, k), Freq: 1}
+		}
+		b[d].Fields = []Field{f}
+	}
+	return b
+}
+
+func c14Vocab(t *testing.T, st *CaseStats, nB, tB, nA, tA int) {
+	old := runtime.GOMAXPROCS(1)
+	defer runtime.GOMAXPROCS(old)
+	desc := fmt.Sprintf("B=%dx%d A=%dx%d", nB, tB, nA, tA)
+	B := uniqueTermsBatch(nB, tB, "b")
+	runtime.GC()
+	runtime.GC()
+	ref, err := buildBytes(B, normFns[0], 1025)
+	if err != nil {
+		t.Fatalf("%s: %v", desc, err)
+	}
+	runtime.GC()
+	runtime.GC()
+	A := uniqueTermsBatch(nA, tA, "a")
+	if _, err := Build(A, normFns[0], 1025); err != nil {
+		t.Fatalf("%s: building A: %v", desc, err)
+	}
+	A = nil
+	used, known := hookPoolHoldsUsed()
+	again, err := buildBytes(B, normFns[0], 1025)
+	if err != nil {
+		t.Fatalf("%s:\n  rebuilding B after A on the same pooled builder: %v", desc, err)
+	}
+	if !bytes.Equal(again, ref) {
+		t.Fatalf("%s:\n  B built after A differs from B built cold (%d vs %d bytes, first difference at %d)", desc, len(again), len(ref), firstDiff(again, ref))
+	}
+	st.Record(desc, !known || used, fmt.Sprintf("distinct-terms>%d", min(nB*tB, nA*tA)/1000*1000))
+}
+
+func TestC14Vocab64k(t *testing.T) {
+	st := NewStats("C14Vocab64k", c14VocabRule)
+	defer st.Flush()
+	c14Vocab(t, st, 240, 300, 150, 499)
+}
+
+func TestC14Vocab512k(t *testing.T) {
+	st := NewStats("C14Vocab512k", c14VocabRule)
+	defer st.Flush()
+	c14Vocab(t, st, 1800, 299, 1100, 499)
+}
